@@ -300,6 +300,12 @@ def apply_rewrite(text, frm, to):
 
 LOOP_KW = ("for", "while", "loop")
 
+# (rule, from, to): applied to every extracted function after its declared rewrites; each is a no-op when the idiom is absent
+GLOBAL_REWRITES = [
+    # R40: `s.contains('c')` (str::contains is generic over the unstable Pattern trait) -> shim with spec `r == s@.contains('c')`
+    ("R40", r"re:(\b[A-Za-z_][\w.]*)\.contains\(('(?:[^'\\]|\\.)+')\)", r"shim_str_contains_char(\1, \2)"),
+]
+
 
 def splice_fn(text, spec=None, ret=None, loops=None, before=None, after=None, rewrites=None, strip_pub=False, log=None, sel="", forloops=None, loopends=None, bodystart=None, bodyend=None, optloops=None):
     """text = verbatim fn item. Returns (new_text, segments) where segments = list of (kind, label, line_lo, line_hi)
@@ -311,6 +317,13 @@ def splice_fn(text, spec=None, ret=None, loops=None, before=None, after=None, re
         if cnt == 0 and not rule.endswith("?"):     # `R3?`: optional (deleting a statement that is not there is a no-op)
             raise Undecided(f"rewrite {rule} `{frm}` no longer applies in {sel}")
         log.append({"rule": rule, "item": sel, "from": frm, "to": to, "count": cnt})
+    # 1a) global optional rewrites of common std idioms Verus has no specification for (shims live in contracts/prelude/std_extra.rs)
+    for rule, frm, to in GLOBAL_REWRITES:
+        if to.split("(")[0] in text:
+            continue
+        text, cnt = apply_rewrite(text, frm, to)
+        if cnt:
+            log.append({"rule": rule, "item": sel, "from": frm, "to": to, "count": cnt})
     # 1b) R8: byte-string literals b"..." -> &[b0, b1, ..] (Verus gives byte-string literals no view); same bytes, computed here
     toks0 = tokenize(text)
     outp, n8 = [], 0
